@@ -41,7 +41,7 @@
    attribute or start box (an attribute there restyles the last boxed run; see notes). *)
 From Coq Require Import List ZArith NArith Bool.
 From Astisub Require Import Kit.Base Kit.Str Gen.TtxTables Model.TtxRow Model.Ttx Model.TtxSpec.
-From Astisub Require Import Proofs.TtxTables Proofs.TtxTotal Proofs.TtxRowProofs Proofs.TtxCodec Proofs.TtxSteps Proofs.TtxStream Proofs.TtxWitness.
+From Astisub Require Import Model.TtxStd Proofs.TtxStdProofs Proofs.FuelTtx Proofs.TtxTables Proofs.TtxTotal Proofs.TtxRowProofs Proofs.TtxCodec Proofs.TtxSteps Proofs.TtxStream Proofs.TtxWitness.
 Import ListNotations.
 Open Scope N_scope.
 
@@ -214,3 +214,33 @@ Print Assumptions C06_hex_pages_are_other_pages.
 Theorem C06_total : forall page ds site, ttx_feed page ds <> Panic site.
 Proof. exact ttx_feed_no_panic. Qed.
 Print Assumptions C06_total.
+
+(* Fuel audit (Proofs/FuelTtx.v): ttx_units, on which C06_units_roundtrip, C06_units_truncated, the stream theorems and
+   C06_total rely, runs ttx_units_fuel with fuel = the payload length; every fuel at least that large gives the same
+   units, so the out-of-fuel value [] is never a truncated answer. *)
+Theorem C06_units_fuel_independent : forall fuel d, (length d <= fuel)%nat -> ttx_units_fuel fuel d = ttx_units d.
+Proof. intros fuel d H. unfold ttx_units. apply ttx_units_fuel_indep. exact H. Qed.
+Print Assumptions C06_units_fuel_independent.
+
+(* Independent character tables (Model/TtxStd.v: ETS 300 706 Tables 32, 35, 36 and the alphabetic columns of the Cyrillic
+   and Greek G0 sets, written by hand; positions the author is not sure of are unasserted).  On every run, against the
+   regenerated tables: for every designation the standard defines (Latin G0 with each of the 13 national options, Cyrillic
+   1-3, Greek) the reader's table equals the standard's at every asserted position; the (designation bits, C12..C14) map
+   is Table 32 with the option bits in the reader's order; Arabic and Hebrew G0 are not implemented (decoded as Latin).
+   Where the standard table is complete (all Latin designations but Turkish) cues_of reads the text off the STANDARD table
+   (g_table), and C06_std_table_is_reader_table is the bridge the stream theorems use.  The sweep found 7 groups of wrong
+   entries in the code, repaired by six fix: commits (notes/C06.md). *)
+Theorem C06_tables_are_standard : all_diffs = [].
+Proof. exact code_tables_are_standard. Qed.
+Print Assumptions C06_tables_are_standard.
+Theorem C06_designation_map_is_standard :
+  forallb (fun k => forallb (fun c => match std_designation k c with SReserved => true | _ => has_entry k c end) opts8) keys16 = true
+  /\ reserved_with_entry = [(0, 7); (1, 5); (1, 7); (2, 7); (3, 0); (3, 1); (3, 2); (3, 3); (3, 4); (3, 6)].
+Proof. exact designation_map_is_standard. Qed.
+Print Assumptions C06_designation_map_is_standard.
+Theorem C06_std_table_is_reader_table : forall tr c t, std_text_table (triplet_key tr) c = Some t -> charset_for tr c = Ok t.
+Proof. exact std_text_table_is_code. Qed.
+Print Assumptions C06_std_table_is_reader_table.
+Theorem C06_arabic_hebrew_not_implemented :
+  code_table 8 7 = code_table 0 7 /\ code_table 10 7 = code_table 0 7 /\ code_table 10 5 = code_table 0 7.
+Proof. exact arabic_hebrew_not_implemented. Qed.
